@@ -147,8 +147,8 @@ static tm_rec *new_timer(int clock, int64_t delta, uint64_t interval, uint64_t l
 	if (!t->ds) h_viol("create", "timer source creation failed");
 	dispatch_set_context(t->ds, t);
 	if (T.ntm <= 6) { sim_watch(t->ds, 120); sim_watch(*(void **)((char *)t->ds + 88), 120); }   // the source and its timer refs
-	dispatch_source_set_event_handler_f(t->ds, timer_handler);
-	dispatch_source_set_cancel_handler_f(t->ds, timer_cancel_handler);
+	if (t->id & 1) { dispatch_source_set_event_handler(t->ds, ^{ timer_handler(t); }); dispatch_source_set_cancel_handler(t->ds, ^{ timer_cancel_handler(t); }); }
+	else { dispatch_source_set_event_handler_f(t->ds, timer_handler); dispatch_source_set_cancel_handler_f(t->ds, timer_cancel_handler); }
 	do_set_timer(t, clock, delta, interval, leeway, 0, forever);
 	dispatch_activate(t->ds);
 	t->ready = 1;
